@@ -7,7 +7,7 @@ package scheduler
 
 // The queue order: lexicographic on (when, id).
 //@ func (Item).Less
-//@   props C17 C05
+//@   props C17
 //@   requires typeis(bItem, Item)
 //@   pure
 //@   ensures result == (it.when < as(bItem, Item).when || (it.when == as(bItem, Item).when && it.id < as(bItem, Item).id))
@@ -28,7 +28,7 @@ package scheduler
 // "consecutive occurrences ... in increasing order ... never before occurrence+offset":
 // the next occurrence is strictly later and the due time is occurrence + offset.
 //@ func (*Item).updateNext
-//@   props C17 C05
+//@   props C17
 //@   modifies it.next, it.when
 //@   ensures result == nil ==> it.next > old(it.next) && it.when == it.next + it.Offset
 //@   ensures result != nil ==> it.next == old(it.next) && it.when == old(it.when)
@@ -46,6 +46,6 @@ package scheduler
 // The dispatch guard: an item is handed to a worker only when occurrence + offset is not after
 // the scheduler's clock reading, and always to the worker selected by the hash of its id.
 //@ func (*TreeScheduler).iterator$1
-//@   props C17 C05
+//@   props C17
 //@   requires s != nil && s.items != nil && len(s.workchans) > 0 && (i != nil ==> typeis(i, Item))
 //@   guardcall send#1: !(time.Unix(it.next + it.Offset, 0) > ts)
